@@ -224,6 +224,11 @@ class Interp:
         self.decisions = self.decisions[:self.dpos] + [(kind, 0)]; self.dpos += 1
         return 0
 
+    def strlen_concrete(self, t):
+        """length of a symbolic string term, which must be determined by the path condition (forks over small lengths)"""
+        for n in range(0, 9):
+            if self.branch(Term("(= (str.len %s) %d)" % (t.s, n), 'Bool')): return n
+        raise Unsupported("symbolic string longer than 8 used as bytes")
     def input_names(self): return [n for n, _, _, _ in self.inputs]
     def model_record(self, vals):
         rec = []
@@ -332,6 +337,7 @@ class Interp:
             for st in stmts:
                 if st is None: continue
                 if st[0] == 'assign':
+                    self.dest_hint = st[1]
                     v = self.rvalue(fr, st[2]); self.place_cell(fr, st[1], write=True).v = v
                 elif st[0] == 'setdiscr':
                     c = self.place_cell(fr, st[1]).v
@@ -617,9 +623,16 @@ class Interp:
         raise Unsupported("discr of %r" % (a,))
 
     def int_type_of(self, fr, rv):
+        if fr is None: return None
         for op in (rv[2], rv[3]):
             t = self.operand_type(fr, op)
             if t in INT_RANGES: return t
+        d = getattr(self, 'dest_hint', None)
+        if d is not None and not d[1]:
+            t = fr.fn.locals.get(d[0])
+            if t:
+                m = re.match(r'^\(?([iu](?:\d+|size))(, bool\))?$', t.strip())
+                if m: return m.group(1)
         return None
 
     def binop(self, fr, op, a, b, rv):
